@@ -365,7 +365,15 @@ func runSeq(c SCase) *hx.Outcome {
 type CTxn struct {
 	Rcpts []string `json:"rcpts"`
 	Body  string   `json:"body"`
+	// Hdr is an extra header line of the message: legal but unusual sender/recipient headers that
+	// name no address (RFC 5322 groups, empty values); the envelope sender then stands in.
+	Hdr string `json:"hdr,omitempty"`
 }
+
+// (a To header naming nobody is taken at its word - the message then lists no recipients - so only
+// sender-side forms are used here, where the envelope sender stands in)
+var oddHeaders = []string{"", "", "", "From: Undisclosed senders:;", "From: nobody:;, also-nobody:;", "From:", "From: <>",
+	"Sender: x", "From: =?utf-8?q?=00?=", "Cc: a:;", "From: Undisclosed senders:;\r\nCc: undisclosed-recipients:;"}
 
 type CCase struct {
 	Backend string `json:"backend"`
@@ -396,6 +404,7 @@ var propCut = hx.Prop[CCase]{
 			for j := 0; j < lines; j++ {
 				x.Body += rapid.SampledFrom([]string{"text line", ".dot", "..", "", "x"}).Draw(t, "line") + fmt.Sprintf(" %d/%d\r\n", i, j)
 			}
+			x.Hdr = rapid.SampledFrom(oddHeaders).Draw(t, "hdr")
 			c.Txns = append(c.Txns, x)
 		}
 		return c
@@ -418,7 +427,11 @@ func dialogue(c CCase) (chunks []chunk, datas [][]byte) {
 			add("RCPT TO:<"+r+">", i)
 		}
 		add("DATA", i)
-		data := []byte(fmt.Sprintf("Subject: cut %d\r\n\r\n%s", i, x.Body))
+		hdr := ""
+		if x.Hdr != "" {
+			hdr = x.Hdr + "\r\n"
+		}
+		data := []byte(fmt.Sprintf("Subject: cut %d\r\n%s\r\n%s", i, hdr, x.Body))
 		wire, tx := hx.DotStuff(data)
 		datas = append(datas, tx)
 		chunks = append(chunks, chunk{b: wire, txn: i, isData: true})
